@@ -16,8 +16,8 @@ func (c *caseWriter) add(h History, r runResult) {
 		var steps []string
 		for i, ob := range r.Obs {
 			runeq := ob.Running == ob.Disk.Canon()
-			steps = append(steps, cfgsm.CoqStep(h.Steps[i].Restart, ob.Ops, h.Steps[i].Faults, h.Steps[i].QueueFaults,
-				cfgsm.CoqObs(ob.Disk, ob.Err != "", ob.ReloadAsked, runeq)))
+			steps = append(steps, cfgsm.CoqStep(h.Steps[i].Restart, ob.Ops, h.Steps[i].Faults, h.Steps[i].QueueFaults, h.Steps[i].DeferReload,
+				cfgsm.CoqObs(ob.Disk, ob.Err != "", ob.ReloadAsked, runeq, ob.LastFailed)))
 		}
 		return "CInst (" + cfgsm.CoqCase(id, h.Shards, h.Inline, steps) + ")"
 	}, h)
